@@ -89,6 +89,30 @@ def _worker(args):
             except Exception as e:
                 rec.update(status="error", backend="-", seconds=0.0, error="%s\n%s" % (e, traceback.format_exc()))
         out["obligations"].append(rec)
+    # vacuity probe (first chunk of the function only): for every proof goal that is reached at all, at least one of the
+    # paths reaching it must have satisfiable hypotheses -- otherwise it was "proved" from a contradiction (typically
+    # an assumed callee postcondition that cannot hold)
+    if chunk == 0 and res.error is None:
+        groups = {}
+        for ob in all_obligations:
+            nm = ob.name
+            if ob.meta.get("trivial") or not any(t in nm for t in (".ensures[", ".preserved[", ".class_inv[")):
+                continue
+            groups.setdefault(nm, []).append(ob)
+        vac = []
+        for nm, obs in groups.items():
+            feasible = False
+            for ob in obs[:6]:
+                try:
+                    if not solve.hyps_refutable(ob, res.str_axioms):
+                        feasible = True
+                        break
+                except Exception:
+                    feasible = True
+                    break
+            if not feasible:
+                vac.append(nm)
+        out["vacuous"] = vac
     out["seconds"] = time.time() - t0
     return out
 
@@ -238,6 +262,8 @@ def main(argv=None):
             (crashes if r["error"].startswith("crash") else errors).append((r["key"], r["error"]))
         if r.get("requires_sat") == "unsat":
             crashes.append((r["key"], "vacuity: contradictory requires"))
+        for nm in r.get("vacuous") or []:
+            crashes.append((r["key"], "vacuity: every path reaching %s has contradictory hypotheses" % nm))
         if not r["error"] and not r["obligations"]:
             crashes.append((r["key"], "vacuity: zero obligations generated"))
         if not r["error"] and r.get("has_ensures") and not r["outcomes"].get("normal"):
